@@ -73,8 +73,13 @@ REQUIRED_THEOREMS = [
     "sphTensorDoubleDivergence_conservative_regular_poly", "sphTensorDivergence_conservative_regular_poly",
     "polarLaplace_even_uniform_bound", "sphLaplace_plain_even_uniform_bound",
     "sphLaplace_conservative_even_uniform_bound", "sphDivergence_conservative_odd_uniform_bound",
+    # ALL smooth fields regular at the axis / origin, every cell incl. the one at the axis (Props/C01GapSmooth.lean)
+    "d1_central_fun_taylor_local", "even_iteratedDeriv3_bound", "even_d1_error_div_radius", "even_d1_error_bound",
+    "even_d2_sub_d1_div_bound", "polarLaplace_even_smooth_uniform", "sphLaplace_plain_even_smooth_uniform",
+    "sphLaplace_conservative_even_smooth_uniform", "sphTensorDoubleDivergence_plain_even_smooth_uniform",
+    "cylLaplace_even_smooth_uniform",
 ]
-EXTRA_PROP_FILES = ["C01Taylor", "C01Smooth", "C01SmoothB", "C01Axis", "C01Nine", "C01Gap"]
+EXTRA_PROP_FILES = ["C01Taylor", "C01Smooth", "C01SmoothB", "C01Axis", "C01Nine", "C01Gap", "C01GapSmooth"]
 RULE = ("matrix leg: seed-derived grids of the four stencil families (Cartesian 1-3 axes incl. UnitGrid, polar, "
         "spherical, cylindrical; 1-4 cells per axis, anisotropic dyadic spacings, with/without hole) x every registered "
         "operator x every documented option (central/forward/backward, conservative or not, central flag) x route; "
